@@ -379,6 +379,15 @@ def run_case(case, ctx):
         a = sorted((tuple(np.round(d.position, 12)), round(d.radius, 12)) for d in em if d.radius > 0)
         b = sorted((tuple(np.round(d.position, 12)), round(d.radius, 12)) for d in em2)
         ctx.check("C02.entry-point", a == b, {"mask": a, "field": b}, tags)
+        # the storage type of a binary image must not matter: bool, small integer and single-precision fields
+        for dt in (bool, np.int8, np.float32):
+            try:
+                em3 = locate_droplets(ScalarField(grid, img.astype(dt), dtype=dt), threshold=0.5)
+                ctx.op()
+                c3 = sorted((tuple(np.round(d.position, 12)), round(d.radius, 12)) for d in em3)
+                ctx.check("C02.entry-point", c3 == b, {"dtype": np.dtype(dt).name, "got": c3, "float64": b}, tags)
+            except Exception as e:  # noqa
+                ctx.check("C02.entry-point", False, {"dtype": np.dtype(dt).name, "exc": repr(e)[:200]}, tags)
 
 
 def expected_positive(tier):
